@@ -246,6 +246,61 @@ def validate(traces, module, cfg, xmx="2g", timeout=900, env=None):
     return events, rejects, notes
 
 
+# ---------------------------------------------------------------- Apalache (unbounded lemmas)
+def apalache(module_path, inv, timeout=240):
+    """apalache-mc check --length=0 --inv=<inv>: the invariant holds in EVERY initial state (symbolic integers).
+    Returns "proved" | "violated" | "unknown" (timeout / tool failure)."""
+    out = tempfile.mkdtemp(prefix="apa-", dir=_mk(os.path.join(BUILD, "tlc")))
+    e = dict(os.environ)
+    e.pop("JAVA_TOOL_OPTIONS", None)
+    try:
+        r = subprocess.run(["apalache-mc", "check", "--length=0", "--inv=" + inv, "--out-dir=" + out,
+                            "--run-dir=" + os.path.join(out, "run"), module_path],
+                           cwd=os.path.dirname(module_path), env=e, capture_output=True, text=True, timeout=timeout)
+        txt = r.stdout + r.stderr
+    except subprocess.TimeoutExpired:
+        txt = "TIMEOUT"
+    finally:
+        shutil.rmtree(out, ignore_errors=True)
+    if "EXITCODE: OK" in txt and "NoError" in txt:
+        return "proved"
+    if "EXITCODE: ERROR (12)" in txt and "invariant 0 violated" in txt:
+        return "violated"
+    return "unknown"
+
+
+def unbounded_lemmas(model, module, invs, neg_edit):
+    """Discharge the invariants of spec/<module>.tla with Apalache over symbolic 64-bit integers and make sure
+    the check is not vacuous (neg_edit = (old, new, inv): the edited copy must violate inv).
+    A lemma Apalache cannot decide in time is reported as "unknown" (the bounded TLC result still stands);
+    a lemma it refutes means the specification contradicts itself: the run is broken."""
+    res = {}
+    path = os.path.join(SPEC, module + ".tla")
+    for inv in invs:
+        res[inv] = apalache(path, inv)
+        if res[inv] == "violated":
+            raise Broken("Apalache refutes %s!%s: the specification is inconsistent" % (module, inv))
+    d = scratch("apaneg")
+    try:
+        with open(path) as f:
+            txt = f.read()
+        old, new, inv = neg_edit
+        if old not in txt:
+            raise Broken("negative control edit does not apply to %s" % module)
+        neg = os.path.join(d, module + "Neg.tla")
+        with open(neg, "w") as f:
+            f.write(txt.replace(old, new).replace("MODULE " + module, "MODULE " + module + "Neg"))
+        r = apalache(neg, inv)
+        if r == "proved":
+            raise Broken("Apalache accepts the deliberately wrong variant of %s!%s: the lemma is vacuous" % (module, inv))
+        res["negative_control"] = {"edit": "%s -> %s" % (old.strip()[:60], new.strip()[:60]), "result": r}
+    finally:
+        shutil.rmtree(d, ignore_errors=True)
+    model.extra_facts = getattr(model, "extra_facts", {})
+    model.extra_facts["apalache:" + module] = res
+    return res
+
+
 # ---------------------------------------------------------------- constants of the tree under test
 def mined_constants():
     """Integer literals (and 1<<k, (1<<k)-1) that occur in the library sources of the tree under test.
